@@ -273,7 +273,6 @@ typedef struct {
 	size_t       n, cap;
 	_Atomic long idle; // receive attempts that found nothing
 	_Atomic int  stop;
-	_Atomic int  closing, ack; // see close_puller()
 	long         corrupt;
 	int          odd_rv;
 	nng_listener lst;
@@ -337,25 +336,16 @@ receiver_main(void *arg)
 	if (q->style == RS_AIO && nng_aio_alloc(&aio, NULL, NULL) != 0) {
 		vf_harness_fail("aio alloc");
 	}
-	bool inf = false;
 	for (;;) {
 		nng_msg *m  = NULL;
 		int      rv;
 		if (atomic_load(&q->stop)) break;
-		if (!inf && atomic_load(&q->closing)) {
-			// about to be closed under us: from now on block without a
-			// timeout, so that no receive timeout can expire while the
-			// socket goes away (see close_puller)
-			inf = true;
-			if (q->style == RS_TIMED) nng_socket_set_ms(q->s, NNG_OPT_RECVTIMEO, NNG_DURATION_INFINITE);
-			atomic_store(&q->ack, 1);
-		}
 		switch (q->style) {
 		case RS_NONBLOCK:
 			rv = nng_recvmsg(q->s, &m, NNG_FLAG_NONBLOCK);
 			break;
 		case RS_AIO:
-			nng_aio_set_timeout(aio, inf ? NNG_DURATION_INFINITE : 15);
+			nng_aio_set_timeout(aio, 15);
 			nng_socket_recv(q->s, aio);
 			nng_aio_wait(aio);
 			rv = nng_aio_result(aio);
@@ -419,6 +409,9 @@ sender_main(void *arg)
 		vf_harness_fail("aio alloc");
 	}
 	for (long i = 0; i < s->quota && s->next_seq < s->cap; i++) {
+		// after a 10 s stall (never seen on a healthy library) the rest of
+		// the run is cut short: every further stall would cost 300 ms
+		if (i >= 20 && atomic_load(&long_block_seen)) break;
 		uint64_t seq = s->next_seq;
 		size_t   len = VF_BODY_MIN + vf_below(&s->rng, 40);
 		if (vf_below(&s->rng, 24) == 0) {
@@ -646,18 +639,19 @@ static void
 close_puller(int slot)
 {
 	puller_t *q = &C.pull[slot];
-	// Close while its receiver is blocked in (or about to call) a receive.
-	// Not while a receive *timeout* may be expiring: the expiry thread then
-	// calls pull0_cancel(aio, sock) on a socket that nng_socket_close may
-	// already have destroyed (library defect outside this property, see
-	// mode "flowx", which keeps that race for reproduction).
+	// The receiver is stopped first and the socket closed afterwards (with
+	// whatever is queued in it or on its way to it).  Closing the socket
+	// under a receiver that keeps calling receive is not done here: a
+	// receive submitted while nng_socket_close runs (after the protocol's
+	// close hook drained the waiters, before the socket id is retired) is
+	// queued on a socket that is then destroyed - it never completes, or its
+	// timeout later calls pull0_cancel on the destroyed socket.  That is a
+	// library defect outside this property; mode "flowx" keeps the racy
+	// order for reproduction.
 	if (q->started && !racy_close) {
-		uint64_t end = vf_now_ns() + 10ull * 1000000000ull;
-		atomic_store(&q->closing, 1);
-		while (!atomic_load(&q->ack)) {
-			if (vf_now_ns() > end) vf_harness_fail("receiver does not acknowledge close");
-			vf_usleep(100);
-		}
+		atomic_store(&q->stop, 1);
+		pthread_join(q->th, NULL);
+		q->started = false;
 	}
 	nng_socket_close(q->s);
 	q->closed = true;
